@@ -37,10 +37,16 @@ type prefixWriter struct {
 	writer   io.Writer
 	prefixed *Prefixed
 	prefix   string
-	buff     bytes.Buffer
+	// mutex guards buff: stdout and stderr of a command, the stages of a
+	// pipeline and background jobs write from separate goroutines.
+	mutex sync.Mutex
+	buff  bytes.Buffer
 }
 
 func (pw *prefixWriter) Write(p []byte) (int, error) {
+	pw.mutex.Lock()
+	defer pw.mutex.Unlock()
+
 	n, err := pw.buff.Write(p)
 	if err != nil {
 		return n, err
@@ -50,6 +56,9 @@ func (pw *prefixWriter) Write(p []byte) (int, error) {
 }
 
 func (pw *prefixWriter) close() error {
+	pw.mutex.Lock()
+	defer pw.mutex.Unlock()
+
 	return pw.writeOutputLines(true)
 }
 
